@@ -239,6 +239,25 @@ fn materialize(r: &str) -> Option<Arc<Vec<u8>>> {
     } else if let Some(inner) = base.strip_prefix("dyld:") {
         // the file `<inner>` offered as a dyld shared cache (`CandidatePathInfo::InDyldCache` / a cache path)
         materialize(inner)?
+    } else if let Some(rest) = base.strip_prefix("idxmi:") {
+        // idxmi:<hex>:<base> — the `.symindex` of `<base>` re-serialized with the module info `<hex>`: the new module
+        // info is appended (4-byte aligned) and the header fields module_info_offset (at 12) / module_info_len (at 16)
+        // point at it; all tables stay where they are
+        let (h, inner) = rest.split_once(':')?;
+        let info = unhex(h);
+        let d = materialize(&format!("idx:{inner}"))?;
+        let mut v = d.to_vec();
+        if v.len() < 20 {
+            return None;
+        }
+        while v.len() % 4 != 0 {
+            v.push(0);
+        }
+        let off = v.len() as u32;
+        v[12..16].copy_from_slice(&off.to_le_bytes());
+        v[16..20].copy_from_slice(&(info.len() as u32).to_le_bytes());
+        v.extend_from_slice(&info);
+        Arc::new(v)
     } else if let Some(inner) = base.strip_prefix("idx:") {
         // the `.symindex` that `BreakpadIndexCreator` (the code `ensure_symindex` runs) builds from `<base>`
         let d = materialize(inner)?;
@@ -1644,6 +1663,32 @@ mod families {
         pool.insert(6, (sx.clone(), idx(&format!("sym:id={x};m=bp_q_sym"))));
         let n_consistent = pool.len();
         pool.extend(stale);
+        // sidecars with a rewritten module info: `parse_symindex_file` reports the id of the LAST MODULE line
+        // (index.rs:57-95), the freshness test looks at the first line
+        let line = |id: &str| format!("MODULE Linux x86_64 {id} gen");
+        let mi = |text: String, of: &String| format!("idxmi:{}:{of}", hex(text.as_bytes()));
+        let info_line = "INFO CODE_ID ABCDEF0123 gen";
+        let crafted: Vec<(String, String)> = vec![
+            // first line = the .sym's, second MODULE line of another build (appended)
+            (sx.clone(), mi(format!("{}\n{}", line(&x), line(&y)), &sx)),
+            (sx.clone(), mi(format!("{}\n{}\n", line(&x), line(&z)), &sx)),
+            // INFO lines in between
+            (sx.clone(), mi(format!("{}\n{info_line}\n{}\n", line(&x), line(&y)), &sx)),
+            // first line replaced, the original second: the first line does not match this .sym ...
+            (sx.clone(), mi(format!("{}\n{}", line(&y), line(&x)), &sx)),
+            // ... but it matches the .sym of the other build, for which the index then reports a foreign id
+            (sy.clone(), mi(format!("{}\n{}", line(&y), line(&x)), &sx)),
+            // harmless rewrites, still used: the same MODULE line twice, an INFO line, a second line that is no record
+            (sx.clone(), mi(format!("{}\n{}", line(&x), line(&x)), &sx)),
+            (sx.clone(), mi(format!("{}\n{info_line}\n", line(&x)), &sx)),
+            (sx.clone(), mi(format!("{}\nMODULE garbage", line(&x)), &sx)),
+            // the last MODULE line is the .sym's but the first is not UTF-8 / has no id: never used
+            (sx.clone(), mi(format!("MODULE Linux x86_64\n{}", line(&x)), &sx)),
+            // no MODULE line at all: not an index
+            (sx.clone(), mi(format!("{info_line}\n"), &sx)),
+        ];
+        let n_stale_end = pool.len();
+        pool.extend(crafted);
         let lines: Vec<String> = pool.iter().map(|(s, ix)| symidx_cand(s, ix)).collect();
         for (rt, req) in [("x", &x), ("y", &y), ("z", &z)] {
             let hd = format!("symidx {req}");
@@ -1652,14 +1697,14 @@ mod families {
             for k in 1..=kmax {
                 for a in arrangements(lines.len(), k) {
                     // lists of 3: at most over the first 6 consistent entries and the stale ones
-                    if k == 3 && a.iter().any(|&v| v >= 6 && v < n_consistent) {
+                    if k == 3 && a.iter().any(|&v| (v >= 6 && v < n_consistent) || v >= n_stale_end + 5) {
                         continue;
                     }
                     let mut ops = vec![hd.clone()];
                     for &v in &a {
                         ops.push(lines[v].clone());
                     }
-                    out.push(Case { name: format!("sx{seed}-{rt}-{}", a.iter().map(|v| format!("{v:x}")).collect::<String>()), ops });
+                    out.push(Case { name: format!("sx{seed}-{rt}-{}", a.iter().map(|v| format!("{v:02x}")).collect::<String>()), ops });
                 }
             }
         }
